@@ -852,6 +852,63 @@ fn e2e_cases(rep: &mut Report, model: &mut Model, rng: &mut Rng, n: u64, big: bo
                 rep.oracle_failure("C16|answers-vs-tool-frames", &format!("request {i} answers {} calls, the previous turn ran/rejected {ran}", new_outs.len()), case.clone());
             }
         }
+        // (g) straight from the script (no model, no tool frames): a function call item the provider
+        // completed — done item, non-empty call id and name — in a response the run consumed is
+        // answered by call id exactly once in the very next request; a run that ends "completed"
+        // leaves no such call unanswered. Calls whose call id, output index or item id collide with another
+        // call of the same response (malformed streams) are left to the model comparison.
+        {
+            for (i, sr) in script.iter().enumerate() {
+                if !sr.ok || i >= raw_bodies.len() {
+                    continue;
+                }
+                // (call id, output index, item id) of every function-call item event of the response
+                let items: Vec<(Option<String>, u64, Option<String>, bool, bool)> = sr
+                    .events
+                    .iter()
+                    .filter_map(|e| match e {
+                        Ev::Item { done, is_fn: true, call_id, idx, item_id, name, .. } => Some((call_id.clone(), *idx, item_id.clone(), *done, name.as_ref().map(|n| !n.is_empty()).unwrap_or(false))),
+                        _ => None,
+                    })
+                    .collect();
+                // a call counts when nothing about it is ambiguous: its call id is non-empty and used by
+                // no other call of the response, its output index and (non-empty) item id likewise
+                let emitted: Vec<String> = items
+                    .iter()
+                    .filter(|(c, idx, iid, done, named)| {
+                        let Some(c) = c else { return false };
+                        *done
+                            && *named
+                            && !c.is_empty()
+                            && items.iter().filter(|o| o.3 && o.0.as_deref() == Some(c.as_str())).count() == 1
+                            && items.iter().all(|o| o.0.as_deref() == Some(c.as_str()) || (o.1 != *idx && (iid.as_deref().unwrap_or("").is_empty() || o.2 != *iid)))
+                            && items.iter().filter(|o| o.0.as_deref() == Some(c.as_str())).all(|o| o.1 == *idx)
+                    })
+                    .filter_map(|x| x.0.clone())
+                    .collect();
+                if emitted.is_empty() {
+                    continue;
+                }
+                rep.count_n("e2e_calls_completed_by_the_provider", emitted.len() as u64);
+                match raw_bodies.get(i + 1) {
+                    Some(next) => {
+                        let outs: Vec<String> = next["input"].as_array().map(|a| a.iter().filter(|x| x["type"] == "function_call_output").map(|x| x["call_id"].as_str().unwrap_or("").to_string()).collect()).unwrap_or_default();
+                        for c in &emitted {
+                            let k = outs.iter().filter(|o| *o == c).count();
+                            if k != 1 {
+                                rep.oracle_failure("C16|emitted-call-not-answered-once", &format!("the provider completed function call {c} in response {i}; the next request answers it {k} times"), case.clone());
+                                break;
+                            }
+                        }
+                    }
+                    None => {
+                        if res.reason == "completed" {
+                            rep.oracle_failure("C16|emitted-call-not-answered-once", &format!("the provider completed function call(s) {emitted:?} in response {i} and the run ended 'completed' without another request"), case.clone());
+                        }
+                    }
+                }
+            }
+        }
         rep.sample(json!({"kind": "e2e", "impl": imp, "model": m}));
     }
 }
